@@ -133,8 +133,16 @@ func execHashio(vec J, out *Writer) {
 				return
 			}
 			pos := 0
+			asString, _ := vec["as_string"].(bool)
 			for _, c := range chunks {
-				n, werr := w.Write(stream[pos : pos+I(c)])
+				var n int
+				var werr error
+				if asString {
+					// the io.StringWriter route (io.WriteString uses a WriteString method where there is one)
+					n, werr = io.WriteString(w, string(stream[pos:pos+I(c)]))
+				} else {
+					n, werr = w.Write(stream[pos : pos+I(c)])
+				}
 				pos += I(c)
 				sizes, sums, names := obsHashers(hs, stream[:pos])
 				st := J{"n": n, "err": werr != nil, "sizes": sizes, "sum_is": sums, "names": names, "passed_len": target.Len(),
@@ -198,6 +206,10 @@ func execHashio(vec J, out *Writer) {
 			switch o["op"].(string) {
 			case "w":
 				n, werr := h.Write(stream[pos : pos+I(o["n"])])
+				pos += I(o["n"])
+				st["n"], st["err"] = n, werr != nil
+			case "ws": // the same bytes through io.WriteString
+				n, werr := io.WriteString(h, string(stream[pos:pos+I(o["n"])]))
 				pos += I(o["n"])
 				st["n"], st["err"] = n, werr != nil
 			case "s":
